@@ -1,5 +1,7 @@
 import RF.Model.Comment
 import RF.Lemmas.Comment
+import RF.Model.LexSpec
+import RF.Lemmas.LexSpec
 /-!
 # C03 — Comments are never silently dropped
 
@@ -353,5 +355,54 @@ example : findUncommented "a // , \n".toList [','] = none := by decide
 that overlaps a failed attempt is missed (only multi-character patterns, e.g. `=>` or `..`). -/
 theorem findUncommented_overlap_counterexample :
     findUncommented "==>".toList "=>".toList = none := by decide
+
+/-! ## 6. `CharClasses` against a declarative lexer specification
+
+`RF.LexSpec` describes a text generatively, from the Rust reference: a list of tokens (code
+characters, line and nested block comments, string / raw string / character literals) and the
+characters they render to, with the side conditions (`WF`) under which that list is the lexer's
+reading of the text.  `rfverif c03` feeds it the tokens `rustc_lexer` finds in fixture files and
+random texts and compares `commentFlags` with the lexer's comment spans. -/
+
+open RF.LexSpec in
+/-- On every well-formed token list `CharClasses` tags as comment exactly the characters of the
+comment tokens (plus the newline that ends a line comment, which the specification counts as
+part of it).  "Partial": `WF` excludes a `"` inside a block comment, raw identifiers and an
+identifier ending in `r` right before a quote or `#` — the shapes of the counterexamples below. -/
+theorem charClasses_agrees_lexSpec_partial (ts : List Token) (h : WF ts = true) :
+    (classes (render ts)).map (·.1.isComment) = commentFlags ts :=
+  RF.Lemmas.LexSpec.classes_flags ts h
+
+open RF.LexSpec in
+/-- In particular no comment character is hidden from the comment machinery (taken for code or
+for a string literal), and no code character is taken for a comment. -/
+theorem charClasses_never_hides_comment_partial (ts : List Token) (h : WF ts = true) (i : Nat)
+    (hi : i < (commentFlags ts).length) :
+    ((classes (render ts)).map (·.1.isComment))[i]? = some ((commentFlags ts)[i]) := by
+  rw [charClasses_agrees_lexSpec_partial ts h]
+  exact List.getElem?_eq_getElem hi
+
+open RF.LexSpec in
+example : WF [.code 'x', .code ' ', .blockComment (scanEvents "a /* n */ * b */".toList), .code ' ',
+    .str (scanItems "s\\\"//".toList), .code ' ', .rawStr 1 "a\"b".toList, .code ' ', .chrEsc '\'' [],
+    .code '<', .code '\'', .code 'a', .code '>', .lineComment " c".toList true] = true := by decide
+
+open RF.LexSpec in
+/-- Without the hypothesis the statement is false.  A `"` inside a block comment makes
+`CharClasses` ignore a nested `/*`: it closes the comment one `*/` early, takes the next `"` for
+the start of a string literal, and the line comment that follows is hidden inside that "string". -/
+theorem charClasses_hides_comment_counterexample :
+    let ts : List Token := [.blockComment (scanEvents " \"/* */\" */".toList), .code ' ',
+      .lineComment " c".toList false]
+    render ts = "/* \"/* */\" */ // c".toList ∧
+    (commentFlags ts).drop 14 = [true, true, true, true] ∧
+    ((classes (render ts)).map (·.1.isComment)).drop 14 = [false, false, false, false] := by
+  decide
+
+/-- A raw identifier is taken for the start of a raw string (no comment is affected, but the line
+counts as "contains a string literal": C07's finding F19). -/
+theorem charClasses_raw_identifier_counterexample :
+    (classes "r#type".toList).map (·.1) = [.inString, .inString, .inString, .normal, .normal, .normal] := by
+  decide
 
 end RF.Props.C03
